@@ -92,7 +92,7 @@ _QEXPR = {}
 
 def q_exprs(T):
     """the right-hand sides of `self.q1_ratio = ...` / `self.q2_ratio = ...` in the CURRENT source of TLSH.final, compiled as functions of the
-    local names q1,q2,q3 (floats, as find_quartiles returns them); None if the source no longer has that shape"""
+    local names q1,q2,q3 (floats, as find_quartiles returns them); None if the source no longer has that shape (qexact_impl then goes through the object)"""
     if 'f' not in _QEXPR:
         import ast, inspect, textwrap
         fs = {}
@@ -117,14 +117,18 @@ def q_exprs(T):
 
 def qexact_impl(T, lo, hi):
     fs = q_exprs(T)
-    if fs is None: return 'nosrc'
-    f1, f2 = fs
+    if fs is None:
+        # the source no longer has the shape `self.q?_ratio = <expression in q1,q2,q3>`: read the ratios off the real object instead (slower)
+        def both(q, q3):
+            o = T.TLSH(48); o.a_bucket = scan_buckets(48, q, q, q3); o.data_len = 256; o.final(b'', False)
+            return o.q1_ratio, o.q2_ratio
+    else:
+        both = lambda q, q3, f1=fs[0], f2=fs[1]: (f1(float(q), float(q), float(q3)), f2(float(q), float(q), float(q3)))
     n = 0; bad = []
     for q3 in range(lo, hi):
-        x3 = float(q3)
         for q in range(q3 + 1):
-            x = float(q); e = q * 100 // q3 % 16
-            if f1(x, x, x3) != e or f2(x, x, x3) != e: bad.append('%d/%d' % (q, q3))
+            e = q * 100 // q3 % 16
+            if both(q, q3) != (e, e): bad.append('%d/%d' % (q, q3))
         n += q3 + 1
     return 'n=%d;bad=%s' % (n, ','.join(bad[:12]))
 
